@@ -94,6 +94,45 @@ func payloadUnderTag(c *Ctx, rule string) {
 					return
 				}
 			}
+			// (2a) the Value is a parameter (or the receiver) of a helper, and every call of the helper is
+			// made where the argument's tag is known to carry the payload: the caller's test vouches
+			// for the helper (GetMember's object arm moved to `objMember`)
+			if prm, isPrm := stripLoads(sf.Base).(*ssa.Parameter); isPrm && fn.Parent() == nil {
+				idx := -1
+				for i, q := range fn.Params {
+					if q == prm {
+						idx = i
+					}
+				}
+				sites := p.CallSitesOf(fn)
+				okAll := idx >= 0 && len(sites) > 0
+				for _, cs := range sites {
+					caller := cs.Parent()
+					if p.inTestFile(caller) {
+						continue
+					}
+					if !p.InLang(caller) || idx >= len(cs.Common().Args) {
+						okAll = false
+						break
+					}
+					argR := strings.TrimPrefix(p.RenderShort(cs.Common().Args[idx]), "&")
+					cms := p.maySetOfShort(caller, argR+".Tag", tagsAll)
+					ctags := cms.At(cs.Block())
+					if len(ctags) == 0 || len(ctags) == len(tagsAll) {
+						okAll = false
+						break
+					}
+					for _, t := range ctags {
+						if !allowed[t] {
+							okAll = false
+						}
+					}
+				}
+				if okAll {
+					c.ok(rule, key, pos, "every caller of "+shortName(fn)+" has established the tag")
+					return
+				}
+			}
 			// (2b) the Value is a literal built in this function with a matching tag and the payload set
 			for _, t := range payloadTags[field] {
 				if strings.HasPrefix(baseR, "lang.Value{Tag: "+t+",") && strings.Contains(baseR, " "+field+": ") {
@@ -202,8 +241,21 @@ func payloadUnderTag(c *Ctx, rule string) {
 				okP := hasP && (pr == getter || strings.HasSuffix(pr, ".Proto"))
 				// the prototype tables themselves are objects without a prototype: they are only ever
 				// reached through protoMember, never handed to a program as a value
-				if tag == "ValueObj" && strings.HasPrefix(shortName(fn), "lang.get") && strings.HasSuffix(shortName(fn), "Prototype") {
+				isGetter := func(g *ssa.Function) bool {
+					return strings.HasPrefix(shortName(g), "lang.get") && strings.HasSuffix(shortName(g), "Prototype")
+				}
+				if tag == "ValueObj" && isGetter(fn) {
 					okP = true
+				}
+				// … or a helper that only the prototype accessors call
+				if tag == "ValueObj" && !okP && len(p.CallSitesOf(fn)) > 0 {
+					only := true
+					for _, cs := range p.CallSitesOf(fn) {
+						if !isGetter(cs.Parent()) && !p.inTestFile(cs.Parent()) {
+							only = false
+						}
+					}
+					okP = only
 				}
 				c.check(okP, rule, key+" prototype", p.InstrPos(a), "Proto = "+getter+" (or the source value's)", fmt.Sprintf("a Value with Tag %s is built with Proto = %q: method calls on it (length, upper, split, …) find no prototype", tag, pr))
 			}
